@@ -91,6 +91,8 @@ func (c11Geo) ASN(ip net.IP) (uint, error) {
 
 type c11LibEnv struct {
 	*vEnv
+	peer *c11Peer
+	slog *c11ShareLog
 	dtls     *c11DTLS
 	cs       *c11ConnStats
 	emptyGeo geoip.Database
@@ -112,9 +114,11 @@ func c11NewLibEnv(tb testing.TB) *c11LibEnv {
 	c11NoNetwork()
 	cs := &c11ConnStats{}
 	e := &c11LibEnv{vEnv: vNewEnv(tb, &RegConfig{EnableIPv4: true, EnableIPv6: true, ConnectingStats: cs}, ""), dtls: &c11DTLS{}, cs: cs}
-	lg := log.New(io.Discard, "[REG] ", golog.Ldate|golog.Lmicroseconds)
+	e.slog = &c11ShareLog{}
+	lg := log.New(e.slog, "[REG] ", golog.Ldate|golog.Lmicroseconds)
 	lg.SetLevel(log.TraceLevel)
 	e.rm.Logger = lg
+	e.peer = c11NewPeer(tb)
 	e.emptyGeo = e.rm.GeoIP
 	if err := e.rm.AddTransport(pb.TransportType_DTLS, e.dtls); err != nil {
 		tb.Fatalf("harness problem: %v", err)
@@ -154,6 +158,10 @@ func (e *c11LibEnv) c11Reset(cfg uint16) {
 	} else {
 		e.rm.GeoIP = e.emptyGeo
 	}
+	mode := c11ShareMode(cfg)
+	e.rm.EnableShareOverAPI = mode != 0
+	e.rm.PreshareEndpoint = e.peer.endpoint(mode)
+	e.peer.mode.Store(int32(mode))
 	e.rm.EnableIPv4 = cfg&8 == 0
 	e.rm.EnableIPv6 = cfg&16 == 0
 	if cfg&64 != 0 {
@@ -168,7 +176,7 @@ func (e *c11LibEnv) c11Reset(cfg uint16) {
 
 type c11ZmqCase struct {
 	Msg  vh.Hex `json:"msg"`
-	Cfg  uint16 `json:"cfg"` // 1 live phantom, 2 liveness error, 4 MaxMind-like GeoIP, 8 IPv4 off, 16 IPv6 off, 32 deliver twice, 64 phantom blocklist
+	Cfg  uint16 `json:"cfg"` // 1 live phantom, 2 liveness error, 4 MaxMind-like GeoIP, 8 IPv4 off, 16 IPv6 off, 32 deliver twice, 64 phantom blocklist, bits 7-9 share-over-API mode (see zz_verif_c11_share_test.go)
 	Kind string `json:"kind,omitempty"`
 }
 
@@ -192,6 +200,8 @@ func c11ZmqRun(e *c11LibEnv, c c11ZmqCase) (classes []string, nontrivial bool, o
 	}
 	cls := map[string]bool{}
 	wantConnect := int64(0)
+	mode := c11ShareMode(c.Cfg)
+	wantShare, handled0, failed0 := int64(0), e.peer.handled.Load(), e.slog.failed.Load()
 	o = c11h.Guard(c11h.Bound, func() {
 		for r := 0; r < rounds; r++ {
 			before := len(e.Anns())
@@ -231,7 +241,10 @@ func c11ZmqRun(e *c11LibEnv, c c11ZmqCase) (classes []string, nontrivial bool, o
 				}
 				if a.Reg != nil {
 					_ = a.Reg.String()
-					_ = a.Reg.GenerateC2SWrapper()
+					shared := a.Reg.GenerateC2SWrapper()
+					if mode != 0 && shared != nil && a.Reg.RegistrationSource != nil && *a.Reg.RegistrationSource == pb.RegistrationSource_Detector {
+						wantShare++ // ingest started `go tryShareRegistrationOverAPI` for it
+					}
 				}
 			}
 			if len(anns) == before {
@@ -246,6 +259,16 @@ func c11ZmqRun(e *c11LibEnv, c c11ZmqCase) (classes []string, nontrivial bool, o
 		// if it never does, the Guard's watch reports the hang
 		for e.cs.finished.Load() < wantConnect {
 			time.Sleep(50 * time.Microsecond)
+		}
+		if wantShare > 0 {
+			cls[fmt.Sprintf("share-started:mode-%d", mode)] = true
+			if !e.c11AwaitShares(mode, wantShare, handled0, failed0) {
+				cls["share-wait-gave-up"] = true // no verdict
+			} else if mode == 1 {
+				cls["share-accepted-by-peer"] = true
+			} else {
+				cls["share-failed-and-logged"] = true
+			}
 		}
 	})
 	if o.Hung || o.Inconclusive {
@@ -270,7 +293,7 @@ func c11ZmqCheck(t vh.Fataler, rec *vh.Rec, e *c11LibEnv, c c11ZmqCase, fuzz boo
 	c11h.Report(t, rec, c11ZmqSub, "zmq", c, vh.Digest(c), o, nontrivial, classes...)
 }
 
-const c11ZmqRule = "one ZMQ message through parseRegMessage + ingestRegistration (all transports, DTLS Connect stubbed, recorders, drawn station configuration); generated: C2SWrapper built field by field (each field present / absent / hostile: secrets and addresses of every length, out-of-range enums and versions, transport parameters of the matching, a mismatched or a corrupt type, registrar responses with overrides), 25 % with byte-level edits, 5 % raw bytes; plus the seed corpus (messages as the real registrar forwards them, hostile constants); non-trivial = the message parsed and asked for at least one address family, i.e. registration building / ingest logic ran; distinct by (message, configuration)"
+const c11ZmqRule = "one ZMQ message through parseRegMessage + ingestRegistration (all transports, DTLS Connect stubbed, recorders, drawn station configuration incl. share-over-API against a local peer that answers 200 / 500 / garbage, closes, refuses, stalls or does not resolve); generated: C2SWrapper built field by field (each field present / absent / hostile: secrets and addresses of every length, out-of-range enums and versions, transport parameters of the matching, a mismatched or a corrupt type, registrar responses with overrides), 25 % with byte-level edits, 5 % raw bytes; plus the seed corpus (messages as the real registrar forwards them, hostile constants); non-trivial = the message parsed and asked for at least one address family, i.e. registration building / ingest logic ran; distinct by (message, configuration)"
 
 func c11ZmqGen(rt *rapid.T) c11ZmqCase {
 	msg, kind := c11h.GenWrapperBytes(rt, c11h.Dom{Gens: []uint32{1, 957}})
@@ -279,6 +302,19 @@ func c11ZmqGen(rt *rapid.T) c11ZmqCase {
 		cfg = uint16(rapid.IntRange(0, 127).Draw(rt, "cfg"))
 	} else if rapid.Bool().Draw(rt, "twice") {
 		cfg = 32
+	}
+	if rapid.IntRange(0, 2).Draw(rt, "share") == 2 {
+		cfg |= uint16(rapid.IntRange(1, 7).Draw(rt, "share_mode")) << 7
+		// sharing only concerns registrations learned from the detector: mostly say so
+		if rapid.IntRange(0, 3).Draw(rt, "as_detector") != 3 {
+			w := &pb.C2SWrapper{}
+			if proto.Unmarshal(msg, w) == nil {
+				w.RegistrationSource = pb.RegistrationSource_Detector.Enum()
+				if b, err := proto.Marshal(w); err == nil {
+					msg = b
+				}
+			}
+		}
 	}
 	return c11ZmqCase{Msg: msg, Cfg: cfg, Kind: kind}
 }
@@ -320,6 +356,9 @@ func c11ZmqSeeds() [][]any {
 		w2.DecoyAddress = net.ParseIP("203.0.113.9").To4()
 		w2.RegistrationPayload.TransportParams.TypeUrl = "" // as sent over the DNS registrar
 		add(w2, 4)
+		for m := uint16(1); m <= 7; m++ {
+			add(w2, m<<7|uint16(i%2)*16) // share-over-API enabled, every peer behaviour; v4+v6 and v4-only stations
+		}
 		w3 := proto.Clone(w).(*pb.C2SWrapper)
 		w3.RegistrationSource = pb.RegistrationSource_BidirectionalAPI.Enum()
 		w3.RegistrationResponse = &pb.RegistrationResponse{Ipv4Addr: proto.Uint32(0xC07ABE21), Ipv6Addr: net.ParseIP("2001:48a8:687f:1::21"), DstPort: proto.Uint32(8443),
@@ -389,7 +428,9 @@ func TestVerif_C11_zmq(t *testing.T) {
 		c11ZmqCheck(t, rec, e, c, false)
 		return
 	}
-	rec.Require("validated", "created-v4", "created-v6", "second-delivery", "connecting-transport-started", "err:error-handling-transport-params",
+	rec.Require("share-started:mode-1", "share-started:mode-2", "share-started:mode-3", "share-started:mode-4", "share-started:mode-5", "share-started:mode-6", "share-started:mode-7",
+		"share-accepted-by-peer", "share-failed-and-logged",
+		"validated", "created-v4", "created-v6", "second-delivery", "connecting-transport-started", "err:error-handling-transport-params",
 		"err:failed-phantom-select", "transport:Min", "transport:Obfs4", "transport:Prefix", "transport:DTLS", "kind:mutated", "kind:structured")
 	if err := c11h.WriteCorpus("FuzzVerif_C11_zmq", c11ZmqSeeds()); err != nil {
 		t.Fatalf("harness problem: %v", err)
@@ -410,6 +451,6 @@ func FuzzVerif_C11_zmq(f *testing.F) {
 		if len(msg) > 1<<16 {
 			return
 		}
-		c11ZmqCheck(t, rec, e, c11ZmqCase{Msg: msg, Cfg: cfg & 127}, true)
+		c11ZmqCheck(t, rec, e, c11ZmqCase{Msg: msg, Cfg: cfg & 1023}, true)
 	})
 }
